@@ -39,16 +39,16 @@ type syncScn struct {
 	Form     string        `json:"form"`  // slash (contents of the tree) | noslash (the tree itself) | sub (pull of module/sub/)
 	// Missing: one more source argument, naming a directory that does not exist (a source the sender cannot read), given
 	// "first" or "last" on the command line (arrangements local and push)
-	Missing string `json:"missing"`
-	Judge    []string      `json:"judge"`
-	Repeat   bool          `json:"repeat"` // run the same transfer a second time (idempotence)
-	CapUp    int           `json:"capup"`  // lib arrangement: transport capacities (0 = unbounded default)
-	CapDown  int           `json:"capdown"`
-	Chunk    int           `json:"chunk"`  // lib: reads return at most this many bytes (0: unlimited)
-	Jitter   int64         `json:"jitter"` // lib: seed of random yields / micro-sleeps in transport operations (0: none)
-	Flip     int64         `json:"flip"`   // lib: flip one bit of the sender->receiver stream at this offset (0: none)
-	Wire     bool          `json:"wire"`   // lib (pull): record the action-level trace of the session (SessionWire.tla)
-	Full     bool          `json:"full"`   // lib, libpush: record the complete session transcript (RsyncTrace.tla)
+	Missing string   `json:"missing"`
+	Judge   []string `json:"judge"`
+	Repeat  bool     `json:"repeat"` // run the same transfer a second time (idempotence)
+	CapUp   int      `json:"capup"`  // lib arrangement: transport capacities (0 = unbounded default)
+	CapDown int      `json:"capdown"`
+	Chunk   int      `json:"chunk"`  // lib: reads return at most this many bytes (0: unlimited)
+	Jitter  int64    `json:"jitter"` // lib: seed of random yields / micro-sleeps in transport operations (0: none)
+	Flip    int64    `json:"flip"`   // lib: flip one bit of the sender->receiver stream at this offset (0: none)
+	Wire    bool     `json:"wire"`   // lib (pull): record the action-level trace of the session (SessionWire.tla)
+	Full    bool     `json:"full"`   // lib, libpush: record the complete session transcript (RsyncTrace.tla)
 	// NameMap concretises the abstract path components of the universe: component -> the real file name, given as
 	// hex (arbitrary bytes: invalid UTF-8, newlines, 255-byte names ...).  The map must preserve the bytewise order.
 	NameMap map[string]string `json:"namemap,omitempty"`
